@@ -248,6 +248,39 @@ impl DecoderState {
         self.rep_len_decoder = LenDecoder::new();
     }
 
+    /// Digest of the adaptive state (properties, probabilities, automaton state,
+    /// rep distances); the expected size and staged input are not part of it.
+    #[cfg(feature = "verif")]
+    #[allow(dead_code)]
+    pub(crate) fn verif_state_digest(&self) -> u64 {
+        let mut h = 0xcbf2_9ce4_8422_2325u64;
+        let p = self.lzma_props;
+        crate::verif::digest_u16s(
+            &mut h,
+            &[p.lc as u16, p.lp as u16, p.pb as u16, self.state as u16],
+        );
+        for r in self.rep.iter() {
+            crate::verif::digest_u16s(&mut h, &[*r as u16, (*r >> 16) as u16]);
+        }
+        for row in 0..(1usize << (p.lc + p.lp)) {
+            crate::verif::digest_u16s(&mut h, &self.literal_probs[row]);
+        }
+        for t in self.pos_slot_decoder.iter() {
+            t.verif_digest(&mut h);
+        }
+        self.align_decoder.verif_digest(&mut h);
+        crate::verif::digest_u16s(&mut h, &self.pos_decoders);
+        crate::verif::digest_u16s(&mut h, &self.is_match);
+        crate::verif::digest_u16s(&mut h, &self.is_rep);
+        crate::verif::digest_u16s(&mut h, &self.is_rep_g0);
+        crate::verif::digest_u16s(&mut h, &self.is_rep_g1);
+        crate::verif::digest_u16s(&mut h, &self.is_rep_g2);
+        crate::verif::digest_u16s(&mut h, &self.is_rep_0long);
+        self.len_decoder.verif_digest(&mut h);
+        self.rep_len_decoder.verif_digest(&mut h);
+        h
+    }
+
     #[cfg(feature = "verif")]
     pub(crate) fn verif_partial_len(&self) -> usize {
         self.partial_input_buf.position() as usize
@@ -676,6 +709,14 @@ impl LzmaDecoder {
             memlimit: memlimit.unwrap_or(usize::MAX),
             state: DecoderState::new(params.properties, params.unpacked_size),
         })
+    }
+
+    /// Digest of the adaptive decoder state, for external monitors.
+    #[cfg(feature = "verif")]
+    #[doc(hidden)]
+    #[allow(dead_code)]
+    pub fn verif_state_digest(&self) -> u64 {
+        self.state.verif_state_digest()
     }
 
     /// Performs the equivalent of replacing this decompression state with a
